@@ -69,9 +69,26 @@ def buckets(tier):
     temp = [K, C, F, anon(C, model.mag_int(2), "degC*2"), anon(K, model.mag_int(2), "K*2"), anon(C, model.mag_int(3), "degC*3"),
             model.prefixed(P["Milli"], K), model.prefixed(P["Milli"], C), anon(K, model.mag_ratio(5, 7), "K*5/7"),
             anon(C, model.mag_ratio(5, 7), "degC*5/7"), anon(F, model.mag_int(2), "degF*2")]
+    # distinct ANONYMOUS compound units with identical dimension and magnitude (only the last tie-breaker of the
+    # canonical ordering, the product structure itself, separates them), next to named equivalents
+    def prod(name, expr, dim, mag):
+        return model.Unit(name, "decltype(%s)" % expr, dim, mag, 0, None, named=False)
+    E = model.d(M=1, L=2, T=-2)
+    kg = model.prefixed(P["Kilo"], U["grams"])
+    energy = [U["joules"], prod("N*m", "au::Newtons{} * au::Meters{}", E, model.mag_int(1000)),
+              prod("W*s", "au::Watts{} * au::Seconds{}", E, model.mag_int(1000)),
+              prod("kg*m^2/s^2", "au::Kilo<au::Grams>{} * au::pow<2>(au::Meters{}) / au::pow<2>(au::Seconds{})", E, model.mag_int(1000)),
+              prod("g*km*m/s^2", "au::Grams{} * au::Kilo<au::Meters>{} * au::Meters{} / au::pow<2>(au::Seconds{})", E, model.mag_int(1000)),
+              prod("V*C", "au::Volts{} * au::Coulombs{}", E, model.mag_int(1000)),
+              prod("lbf*ft", "au::PoundsForce{} * au::Feet{}", E, model.vmul(U["pounds_force"].mag, U["feet"].mag)),
+              model.prefixed(P["Kilo"], U["joules"])]
+    speed = [prod("m/s", "au::Meters{} / au::Seconds{}", model.d(L=1, T=-1), {}), prod("m*Hz", "au::Meters{} * au::Hertz{}", model.d(L=1, T=-1), {}),
+             U["knots"], prod("km/h", "au::Kilo<au::Meters>{} / au::Hours{}", model.d(L=1, T=-1), model.mag_ratio(1000, 3600)),
+             prod("mi/h", "au::Miles{} / au::Hours{}", model.d(L=1, T=-1), model.vdiv(U["miles"].mag, model.mag_int(3600))),
+             prod("ft*Hz", "au::Feet{} * au::Hertz{}", model.d(L=1, T=-1), U["feet"].mag)]
     if tier == "quick":
-        return {"length": length[:13], "time": time[:9], "angle": angle[:6], "temperature": temp[:8]}
-    return {"length": length, "time": time, "angle": angle, "data": data, "temperature": temp}
+        return {"length": length[:13], "time": time[:9], "angle": angle[:6], "temperature": temp[:8], "energy": energy[:6], "speed": speed[:5]}
+    return {"length": length, "time": time, "angle": angle, "data": data, "temperature": temp, "energy": energy, "speed": speed}
 
 
 def all_rational(units):
